@@ -254,7 +254,7 @@ def run_pps(F, R, rule, entry_names, kinds, cha_crates, registry_names=None, arm
                 R.undecided(rule, inst, "reachable %s site outside the armed scope (not triaged)" % s.kind, s.loc)
                 hist["undecided"] += 1
                 continue
-            how = discharge_const(s) or D.cond_rule(s) or D.folded_const_rule(s) or D.split_checked_rule(s) or D.type_rule(s) or D.guard_rule(s) or D.widened_rule(s) or D.size_rule(s) or D.slice_copy_rule(s)
+            how = discharge_const(s) or D.cond_rule(s) or D.folded_const_rule(s) or D.split_checked_rule(s) or D.type_rule(s) or D.guard_rule(s) or D.widened_rule(s) or D.size_rule(s) or D.slice_copy_rule(s) or D.counter_rule(s)
             if how:
                 R.ok(rule, inst, how, s.loc, how=how.split(":")[0])
                 hist[how.split(":")[0]] += 1
